@@ -585,7 +585,8 @@ func patched(t *testing.T, patch string) string {
 		cmd := exec.Command("git", "apply", abs)
 		cmd.Dir = tmp
 		if out, err := cmd.CombinedOutput(); err != nil {
-			t.Skipf("%s does not apply to the current /repo: %s", patch, out)
+			t.Logf("%s does not apply to the current /repo (left out): %s", patch, out)
+			return ""
 		}
 	}
 	return tmp
@@ -597,8 +598,19 @@ func TestHarmlessRewritesKeepFacts(t *testing.T) {
 	if err != nil {
 		t.Fatal(err)
 	}
+	applied := 0
+	defer func() {
+		if applied < 4 {
+			t.Errorf("only %d of the harmless patches apply to the current /repo: refresh testdata", applied)
+		}
+	}()
 	for _, p := range []string{"H05.diff", "H07.diff", "H18.diff", "H21.diff", "H22.diff", "H25.diff", "harmless-rewrites.diff"} {
-		got, err := gen(patched(t, p))
+		dir := patched(t, p)
+		if dir == "" {
+			continue
+		}
+		applied++
+		got, err := gen(dir)
 		if err != nil {
 			t.Fatalf("%s: %v", p, err)
 		}
@@ -619,7 +631,11 @@ func TestSeededChangesFlipFacts(t *testing.T) {
 		"seeded-C01-7.diff": "reloadListsApiserver",
 		"seeded-C08-7.diff": "bindReplyInRequestOrder",
 	} {
-		got, err := gen(patched(t, p))
+		dir := patched(t, p)
+		if dir == "" {
+			continue
+		}
+		got, err := gen(dir)
 		if err != nil {
 			t.Fatalf("%s: %v", p, err)
 		}
@@ -769,6 +785,61 @@ func TestListsApiserver(t *testing.T) {
 	} {
 		if got := listsApiserver(traceOf(t, src, "C", "listFloatingIPs")); got != want {
 			t.Errorf("got %v want %v for\n%s", got, want, src)
+		}
+	}
+}
+
+func TestKeyOwnedHelperShapes(t *testing.T) {
+	mk := func(body string) *Trace {
+		return traceOf(t, `func (p *T) keyOwnedByRunningPod(keyObj *K, podUid string) bool {
+	ipInfos, err := p.ipam.ByKeyAndIPRanges(keyObj.KeyInDB, nil)
+	if err != nil {
+		return true
+	}
+	for _, ipInfo := range ipInfos {
+`+body+`
+	}
+	return false
+}`, "T", "keyOwnedByRunningPod")
+	}
+	for body, want := range map[string][2]bool{
+		`		if ipInfo == nil || ipInfo.PodUid == podUid || ipInfo.PodUid == "" {
+			continue
+		}
+		if running, _ := p.podRunning(keyObj.PodName, keyObj.Namespace, ipInfo.PodUid); running {
+			return true
+		}`: {true, true},
+		`		if ipInfo != nil && ipInfo.PodUid != "" && podUid != ipInfo.PodUid {
+			r, _ := p.podRunning(keyObj.PodName, keyObj.Namespace, ipInfo.PodUid)
+			if r {
+				return true
+			}
+		}`: {true, true},
+		// before the fix: a record without uid is judged by the name alone
+		`		if ipInfo == nil || ipInfo.PodUid == podUid {
+			continue
+		}
+		if running, _ := p.podRunning(keyObj.PodName, keyObj.Namespace, ipInfo.PodUid); running {
+			return true
+		}`: {true, false},
+		// no uid comparison at all: not the whole-key check
+		`		if ipInfo == nil {
+			continue
+		}
+		if running, _ := p.podRunning(keyObj.PodName, keyObj.Namespace, ipInfo.PodUid); running {
+			return true
+		}`: {false, false},
+		// asks about another pod
+		`		if ipInfo == nil || ipInfo.PodUid == podUid || ipInfo.PodUid == "" {
+			continue
+		}
+		if running, _ := p.podRunning(keyObj.PodName, keyObj.Namespace, podUid); running {
+			return true
+		}`: {false, false},
+	} {
+		shape, skips := keyOwnedHelper(mk(body))
+		if shape != want[0] || skips != want[1] {
+			t.Errorf("got (%v, %v) want %v for\n%s", shape, skips, want, body)
 		}
 	}
 }
